@@ -111,6 +111,7 @@ type stats struct {
 	Short      int64 `json:"short_strings"`
 	Sequences  int64 `json:"sequences"`
 	SeqSteps   int64 `json:"sequence_steps"`
+	TornSeqs   int64 `json:"torn_q4_sequences"`
 	Outcomes   map[string]int64 `json:"outcomes"` // kind|class|why|fault -> client class|status|reset
 	PerGroup   map[string]int64 `json:"per_group"`
 	PerKind    map[string]int64 `json:"per_kind"`
@@ -141,6 +142,7 @@ func (s *stats) merge(o *stats) {
 	s.Short += o.Short
 	s.Sequences += o.Sequences
 	s.SeqSteps += o.SeqSteps
+	s.TornSeqs += o.TornSeqs
 	for _, p := range []struct{ a, b map[string]int64 }{{s.Outcomes, o.Outcomes}, {s.PerGroup, o.PerGroup},
 		{s.PerKind, o.PerKind}, {s.PerWidth, o.PerWidth}, {s.PerStorage, o.PerStorage}, {s.PerFault, o.PerFault}, {s.GroupNs, o.GroupNs}} {
 		for k, v := range p.b {
@@ -954,8 +956,32 @@ func (wk *worker) holdAt(label string, w *world, h uint64) error {
 		return wk.stores["mem"].PutODSQ4(context.Background(), roots, h, w.S.EDS)
 	}
 	wk.cs.inner = wk.cached
-	return wk.stores["cq4"].PutODSQ4(context.Background(), roots, h, w.S.EDS)
+	if err := wk.stores["cq4"].PutODSQ4(context.Background(), roots, h, w.S.EDS); err != nil {
+		return err
+	}
+	if cut, ok := strings.CutPrefix(label, tornPrefix); ok {
+		// The Q4 file of the block is left shorter than the quadrant (a put that died while writing
+		// it); ODS file and height link are complete. The cq4 store keeps no in-memory accessor
+		// (its own cache is the no-op cache), so the first request opens the files, and the
+		// serving cache keeps that accessor for the following requests. A later put of the same
+		// block notices the size mismatch and rewrites the files, so every sequence starts torn.
+		size := int64(w.S.W * w.S.W * 512)
+		n, ok := map[string]int64{"0": 0, "half": size / 2, "size-1": size - 1}[cut]
+		if !ok {
+			return fmt.Errorf("unknown truncation %q", cut)
+		}
+		path := filepath.Join(wk.dir, "cq4", "blocks", share.DataHash(w.S.DAH.Hash()).String()+".q4")
+		if err := os.Truncate(path, n); err != nil {
+			return fmt.Errorf("truncating the Q4 file: %w", err)
+		}
+	}
+	return nil
 }
+
+// tornPrefix + {0, half, size-1}: the cached-q4 form over a block whose Q4 file is incomplete.
+const tornPrefix = "torn-q4:"
+
+var tornCuts = []string{"0", "half", "size-1"}
 
 func (wk *worker) dropAt(label string, w *world, hs []uint64) {
 	st := wk.stores["mem"]
@@ -970,7 +996,7 @@ func (wk *worker) dropAt(label string, w *world, hs []uint64) {
 // runSequences executes every ordered pair (triples: every ordered triple) of seqElems of each
 // seqRows row against ONE accessor instance per sequence (a fresh height is put for every
 // sequence, nothing is re-put inside it); every exchange is judged by the ordinary oracle.
-func (wk *worker) runSequences(w *world, lay string, triples bool) error {
+func (wk *worker) runSequences(w *world, lay string, li int, triples, allCuts bool) error {
 	label := seqLabel(w.storage)
 	if label == "" {
 		return nil
@@ -982,7 +1008,7 @@ func (wk *worker) runSequences(w *world, lay string, triples bool) error {
 		wk.dropAt(label, w, used)
 		wk.cs.inner = wk.stores[w.storage]
 	}()
-	runSeq := func(ids []refID) error {
+	runSeqOn := func(label, group string, ids []refID) error {
 		h := next
 		next++
 		if next >= w.height+990 {
@@ -997,12 +1023,16 @@ func (wk *worker) runSequences(w *world, lay string, triples bool) error {
 		for _, id := range ids {
 			id.height = h
 			raw := refEncode(id)
-			wk.run(spec{kind: id.kind, mode: "typed", raw: raw, fault: faultAlphabet[0], group: fmt.Sprintf("sequence-%d", len(ids))}, sw, lay)
+			wk.run(spec{kind: id.kind, mode: "typed", raw: raw, fault: faultAlphabet[0], group: group}, sw, lay)
 			wk.st.Distinct++
 			wk.st.SeqSteps++
 			wk.before = append(wk.before, seqStep{Kind: kindNames[id.kind], Raw: hexs(raw)})
 		}
+		wk.before = nil
 		wk.st.Sequences++
+		if strings.HasPrefix(label, tornPrefix) {
+			wk.st.TornSeqs++
+		}
 		if len(used) >= 64 {
 			wk.dropAt(label, w, used)
 			used = used[:0]
@@ -1010,6 +1040,7 @@ func (wk *worker) runSequences(w *world, lay string, triples bool) error {
 		}
 		return nil
 	}
+	runSeq := func(ids []refID) error { return runSeqOn(label, fmt.Sprintf("sequence-%d", len(ids)), ids) }
 	for ri, r := range seqRows(w) {
 		el := seqElems(w, r)
 		for _, a := range el {
@@ -1027,6 +1058,45 @@ func (wk *worker) runSequences(w *world, lay string, triples bool) error {
 						if err := runSeq([]refID{a, b, c}); err != nil {
 							return err
 						}
+					}
+				}
+			}
+		}
+	}
+	// Incomplete Q4 file behind the persisting file accessor: (a) the whole single-request sweep in
+	// its usual order on ONE accessor instance per truncation, (b) every ordered pair (repetition
+	// included) of the requests touching the first data row, the first and the last parity row
+	// and the whole square - so a parity request follows a parity request for ANOTHER row.
+	if w.storage == "q4" && !share.DataHash(w.S.DAH.Hash()).IsEmptyEDS() {
+		var sweep []refID
+		for _, sp := range wellFormed(w) {
+			if e := classify(sp.kind, sp.raw, w); e.class == expData {
+				sweep = append(sweep, e.id)
+			}
+		}
+		var el []refID
+		for _, r := range uniqInts([]int{0, w.S.W, w.S.N - 1}) {
+			for _, id := range seqElems(w, r) {
+				if id.kind != kEds {
+					el = append(el, id)
+				}
+			}
+		}
+		el = append(el, refID{kind: kEds})
+		cuts := tornCuts
+		if !allCuts {
+			cuts = tornCuts[li%3 : li%3+1]
+		}
+		for _, cut := range cuts {
+			if err := runSeqOn(tornPrefix+cut, "torn-q4-sweep", sweep); err != nil {
+				return err
+			}
+		}
+		for _, cut := range cuts {
+			for _, a := range el {
+				for _, b := range el {
+					if err := runSeqOn(tornPrefix+cut, "torn-q4-sequence-2", []refID{a, b}); err != nil {
+						return err
 					}
 				}
 			}
@@ -1292,7 +1362,7 @@ func runShard(t *testing.T, tier string, seed int64, idx, n int, deadline time.T
 			wk.st.Distinct++
 		}
 		triples := tier == "thorough" && (j.lay.W <= 2 || j.li%4 == 0)
-		if err := wk.runSequences(w, lay, triples); err != nil {
+		if err := wk.runSequences(w, lay, j.li, triples, tier == "thorough"); err != nil {
 			out.Infra = err.Error()
 			return out
 		}
@@ -1327,7 +1397,7 @@ func TestVerifC09(t *testing.T) {
 	rep.Rule = "bounded-exhaustive inputs on the real shrex Server (all five registered handlers behind the recovery middleware, real store) and real Client over an in-memory stream pair: " +
 		"for every namespace layout of the stated ODS widths stored in the stated storage forms (recent cache / ODS+Q4 files / ODS file), every well-formed request (whole square, every EDS row, every EDS coordinate, every probe namespace incl. absent ones, every [from,to) ODS range), " +
 		"every kind × heights not held, every field at and beyond its bound (grid), zero height, malformed / reserved / parity namespaces, from >= to, huge ranges, every truncation, over-long encodings, single-byte substitutions, all byte strings of length <= 2, " +
-		"an explicit fault alphabet (memory reservation denied, write failures, store / accessor errors and panics, service-scope failure), and every ordered pair (thorough: also triple) of well-formed requests touching the same EDS row served from ONE persisting accessor instance (recent-cache entry / serving cache over the files); a case is one (square, storage, protocol, request bytes, fault) executed end to end; it is distinct by that tuple (duplicates produced by two enumerators are dropped before execution) and non-trivial because the real handler ran for it"
+		"an explicit fault alphabet (memory reservation denied, write failures, store / accessor errors and panics, service-scope failure), and every ordered pair (thorough: also triple) of well-formed requests touching the same EDS row served from ONE persisting accessor instance (recent-cache entry / serving cache over the files), including file-backed accessors of blocks whose Q4 file is incomplete (0 bytes / half / size-1: whole sweep and every ordered pair across data row, first and last parity row and whole square on one accessor); a case is one (square, storage, protocol, request bytes, fault) executed end to end; it is distinct by that tuple (duplicates produced by two enumerators are dropped before execution) and non-trivial because the real handler ran for it"
 	rep.Assumptions = []string{
 		"the in-memory host/stream/scope transport bytes and record calls faithfully; the handler receives its stream after the opener's first write (lazy negotiation); stream deadlines are enforced only in the stalled-client scenario (synctest bubble, fake clock)",
 		"reference: rsmt2d square and DataAvailabilityHeader of verifx/sq; independent big-endian encoder/decoder of the five identifiers; namespace validity re-stated independently of go-square",
@@ -1344,7 +1414,7 @@ func TestVerifC09(t *testing.T) {
 		replayC09(t, rep, p)
 		return
 	}
-	deadline := rep.Deadline(70*time.Second, 17*time.Minute)
+	deadline := rep.Deadline(80*time.Second, 17*time.Minute)
 	tier := rep.Tier
 	jobs, layouts := planJobs(tier, rep.Seed)
 	perWidthLayouts, perWidthWorlds := map[int]int{}, map[int]int{}
@@ -1464,6 +1534,7 @@ func TestVerifC09(t *testing.T) {
 	rep.Set("fault_cases", total.Faulted)
 	rep.Set("request_sequences_on_one_accessor", total.Sequences)
 	rep.Set("request_sequence_exchanges", total.SeqSteps)
+	rep.Set("sequences_over_incomplete_q4_file", total.TornSeqs)
 	rep.Set("overlong_requests", total.Overlong)
 	rep.Set("panics_recovered_by_middleware", total.Recovered)
 	rep.Set("over_release_observed", total.OverRel)
@@ -1614,7 +1685,7 @@ func replayC09(t *testing.T, rep *vx.Report, path string) {
 		if held == 0 {
 			held = 424242
 		}
-		isSeq := strings.HasPrefix(c.Group, "sequence")
+		isSeq := strings.HasPrefix(c.Group, "sequence") || strings.HasPrefix(c.Group, "torn-q4")
 		base := c.Storage
 		if isSeq {
 			// the block is held once in the base storage form and once more at the height the
